@@ -416,11 +416,35 @@ async fn check_round(r: &mut Runner, base_v: u64, outcomes: &[PartyOutcome], fau
             }
             expect_states.push((cur.clone(), "no change (unclaimed version)".into()));
         }
+        // several candidates can have the same rows (e.g. an unacknowledged create_index vs an
+        // unacknowledged optimize_indices): prefer the one whose index list is what the version has
+        let got_idx: Option<Vec<String>> = {
+            use lance_index::DatasetIndexExt;
+            dv.load_indices().await.ok().map(|ix| {
+                let mut n: Vec<String> = ix.iter().filter(|i| !i.name.starts_with("__")).map(|i| i.name.clone()).collect();
+                n.sort();
+                n.dedup();
+                n
+            })
+        };
+        let idx_names = |st: &TableState| {
+            let mut n: Vec<String> = st.indices.iter().map(|i| i.name.clone()).collect();
+            n.sort();
+            n
+        };
         let mut matched = None;
         for (i, (stt, _)) in expect_states.iter().enumerate() {
-            if stt.sorted_rows() == got {
+            if stt.sorted_rows() == got && got_idx.as_ref().map(|g| *g == idx_names(stt)).unwrap_or(true) {
                 matched = Some(i);
                 break;
+            }
+        }
+        if matched.is_none() {
+            for (i, (stt, _)) in expect_states.iter().enumerate() {
+                if stt.sorted_rows() == got {
+                    matched = Some(i);
+                    break;
+                }
             }
         }
         match matched {
